@@ -4,7 +4,7 @@ SPEC = {
     "props": ["props/C11.vo"],
     "props_need_gen": ["props/C11.vo"],
     "gen_items": ["src/string.rs + pattern.rs:str-API wrapper table"],
-    "tieA_required": False,
+    "tieA_required": True,
     "drivers": [{"driver": "strapi", "profiles": ["debug", "release"]},
                 {"driver": "bytes", "profiles": ["debug"], "args": ["str", "focus=sharing"]}],
     "case_libs": ["theories/CasesBytes.vo"],
